@@ -179,9 +179,11 @@ func (c *BaseClient) serve() error {
 			if err != nil {
 				return err
 			}
-			select {
-			case c.sig.PingResp() <- pingResp:
-			default:
+			if ch, ok := c.sig.PingResp(); ok {
+				select {
+				case ch <- pingResp:
+				default:
+				}
 			}
 		default:
 			// must close connection if the client encountered protocol violation.
